@@ -54,7 +54,7 @@ Get(n, k, r) ==
 Dev_InnerMergeConflict(n, k, r) ==
     /\ AllowInnerMergeConflict
     /\ n \in Nodes /\ r <= 0       \* the GET answers an error or, the error being swallowed, 404
-    /\ Read(par, ent[k], n) > 0
+    /\ Read(par, ent[k], n) >= 0
     /\ FindMatchNode(par, ent[k], n) = -1
     /\ PrintT("DEVIATION inner-merge-conflict")
     /\ UNCHANGED <<dagvars, ent>>
